@@ -223,6 +223,13 @@ def filter_case(case):
             # a repository copied from a case-insensitive platform keeps core.ignorecase=true in its own config
             git(repo, 'config', 'core.ignorecase', 'true')
             count('core.ignorecase-true')
+        if case['mode'] != 'rules' and case['id'] % 5 == 2 and refs(repo):
+            # remote-tracking refs of remotes whose names merely begin with "origin": they are not the origin the tool migrates
+            tips0 = [v[0] for kk, v in sorted(refs(repo).items()) if v[1] == 'commit']
+            if tips0:
+                git(repo, 'update-ref', 'refs/remotes/origin-old/legacy', tips0[0])
+                git(repo, 'update-ref', 'refs/remotes/origin2/main', tips0[-1])
+                count('remotes-named-like-origin')
         before_refs = refs(repo)
         before_head = head_of(repo)
         s_before = export(repo)
